@@ -91,7 +91,7 @@ pub enum Instruction {
     /// value start position, Nrets
     Return(Reg, TypeSize),
     //dst,src,time,idx
-    Delay(Reg, Reg, Reg),
+    Delay(Reg, Reg, Reg, u8),
     Mem(Reg, Reg),
 
     /// jump to instruction over the offset.
@@ -228,8 +228,8 @@ impl std::fmt::Display for Instruction {
                     "release_usersum", src, size, type_idx
                 )
             }
-            Instruction::Delay(dst, src, time) => {
-                write!(f, "{:<10} {} {} {}", "delay", dst, src, time)
+            Instruction::Delay(dst, src, time, idx) => {
+                write!(f, "{:<10} {} {} {} {}", "delay", dst, src, time, idx)
             }
             Instruction::Mem(dst, src) => {
                 write!(f, "{:<10} {} {}", "mem", dst, src)
